@@ -489,6 +489,7 @@ func states(depth int) map[string][]byte {
 func TestCheck(t *testing.T) {
 	env := report.FromEnv()
 	rep := env.New("C06")
+	defer rep.Guard(env)
 	rep.Assumptions = []string{
 		"'synced' is judged as: a Sync on the sink after the record's write and before the first effect / the return",
 		"the ACL decision used to classify a request as permitted comes from acl.Rules.Allow itself (its correctness is C07)",
